@@ -654,6 +654,36 @@ func c07Isolation(c *Ctx) {
 			return
 		}
 	}
+	// (4) middleware lists: routers of a group that already has middlewares each keep a list of their own; Use on one
+	// router (or on the group) must not change what a sibling's later routes are wrapped with
+	{
+		env4 := mon.NewEnv()
+		env4.RecordMW = false
+		g4 := env4.NewGroup()
+		g4.Use(env4.MW("G"))
+		r1 := g4.New("r1", mux.NewPathVersion("", "r1"))
+		r2 := g4.New("r2", mux.NewPathVersion("", "r2"))
+		r1.Use(env4.MW("A"))
+		r2.Use(env4.MW("B"))
+		want1, want2 := "A>G", "B>G"
+		if c.Case%2 == 0 {
+			g4.Use(env4.MW("Z"))
+			want1, want2 = "Z>A>G", "Z>B>G"
+		}
+		r1.Handle("/late", env4.NewHnd(mon.KRoute, "/late"), nil, "GET")
+		r2.Handle("/late", env4.NewHnd(mon.KRoute, "/late"), nil, "GET")
+		for _, t := range []struct {
+			r    *mux.Router[*mon.Hnd]
+			want string
+		}{{r1, want1}, {r2, want2}} {
+			_, tr := mon.DoTrace(t.r, mon.Req{Method: "GET", Path: "/late"})
+			c.Eval()
+			if got := strings.Join(tr, ">"); got != t.want {
+				bad(fmt.Sprintf("a route registered on router %q after Use calls on its sibling and its group runs the middlewares %q, expected %q (outermost first)", t.r.Name(), got, t.want), nil)
+				return
+			}
+		}
+	}
 	c.Class("isolation_battery")
 }
 
